@@ -264,9 +264,9 @@ def worker(ctx):
         return t
 
     n = ctx.n(24000, 400000) // ctx.nworkers + 1
-    ctx.run_hypothesis(make_valid, n // 3, replay_fn=replay_case)
-    ctx.run_hypothesis(make_whole, max(2, n // 400), chunk=2, replay_fn=replay_case)
-    ctx.run_hypothesis(make_block, n // 2, replay_fn=replay_case)
+    ctx.run_hypothesis(make_valid, n // 3, replay_fn=replay_case, share=0.3)
+    ctx.run_hypothesis(make_whole, max(2, n // 400), chunk=2, replay_fn=replay_case, share=0.25)
+    ctx.run_hypothesis(make_block, n // 2, replay_fn=replay_case, share=0.6)
     ctx.run_hypothesis(make_font, n // 12, replay_fn=replay_case)
     try:
         drv.stop()
